@@ -209,6 +209,7 @@ let more_handle (toks : string list) : string =
             | Some v when not (val_matches obs v) -> "diff select impl=" ^ obs ^ " model=" ^ show_val v
             | Some _ ->
                 (match sem_top row et with
+                 | Some (VBool false) when obs = "N" -> "ok nt"   (* a comparison that is not true may be NULL *)
                  | Some v when not (val_matches obs v) ->
                      "chk select_vs_sem " ^ classify row et ^ " impl=" ^ obs ^ " spec=" ^ show_val v
                  | Some _ -> "ok nt"
@@ -284,10 +285,84 @@ let handle (toks : string list) : string =
                    | OVal b, o when o = b01 b -> Same
                    | m, o -> Differ ("EvaluateBool impl=" ^ o ^ " model=" ^
                                      (match m with OVal b -> b01 b | OErr -> "e" | OUnm -> "u"))) in
-                (match List.filter (fun c -> c <> Same) [ chk_e; chk_w; chk_u; chk_b ] with
+                (* the property on the implementation's own output: inside the reference semantics' domain
+                   (and with the forced side condition on present columns) the SELECT-path value is the
+                   reference value *)
+                let spec =
+                  (match sem_top row et with
+                   | Some v when cols_ok_top row et ->
+                       let o = get "U" in
+                       let impl_val = if o = "e" then "N" else
+                           (match String.rindex_opt o ':' with
+                            | Some i -> if String.sub o (i + 1) 1 = "1" then "N" else String.sub o 0 i
+                            | None -> o) in
+                       if val_matches impl_val v then None
+                       else Some ("chk eval_vs_sem " ^ classify row et ^ " impl=" ^ impl_val ^ " spec=" ^ show_val v)
+                   | _ -> None) in
+                (match spec with Some c -> c | None ->
+                match List.filter (fun c -> c <> Same) [ chk_e; chk_w; chk_u; chk_b ] with
                  | Differ s :: _ -> "diff " ^ s
                  | _ -> if !nontriv && not !unm then "ok nt" else "ok"))
        | _ -> "bad line")
   | _ -> more_handle toks
 
 let () = Registry.register "C06" handle
+
+
+(* ======================= C05 (same file: it needs the C06 encodings, and modules are linked in
+   alphabetical order) ======================= *)
+let p_query (t : string list) : xquery =
+  match t with
+  | n :: r ->
+      let rec items k r = if k = 0 then ([], r) else
+          (match r with
+           | "star" :: r -> let (l, r) = items (k - 1) r in (IStar :: l, r)
+           | "col" :: a :: b :: r -> let (l, r) = items (k - 1) r in (ICol (bytes_of_hex a, bytes_of_hex b) :: l, r)
+           | "lit" :: a :: b :: r -> let (l, r) = items (k - 1) r in (ILit (bytes_of_hex a, bytes_of_hex b) :: l, r)
+           | "x" :: o :: r -> let (t, r) = p_top_r r in let (l, r) = items (k - 1) r in (IExpr (t, bytes_of_hex o) :: l, r)
+           | _ -> failwith "bad item") in
+      let (l, r) = items (int_of_string n) r in
+      let w = (match r with "w0" :: _ -> None | "w1" :: r -> Some (fst (p_expr r)) | _ -> failwith "bad where") in
+      { q_items = l; q_where = w }
+  | [] -> failwith "empty query"
+
+let handle05 (toks : string list) : string =
+  match toks with
+  | "HD" :: _ -> "chk history_dependent"
+  | "A" :: _ :: _ :: _ :: v :: _ -> if v = "same" then "ok" else "chk sync_async_differ"
+  | "N" :: _ :: v :: _ -> if v = "same" then "ok" else "chk nested_" ^ v
+  | "Q" :: _ :: rest ->
+      (match Win.split_hash rest with
+       | [ _; qenc; rowt; obs ] ->
+           let q = p_query qenc in let row = parse_row rowt in
+           let wchk () =
+             (* the statement: a result is produced iff WHERE is true in the reference semantics *)
+             (match q.q_where with
+              | None -> None
+              | Some e -> (match sem row e with
+                  | Some v -> (match as_bool v with
+                      | Some t when (obs <> [ "none" ]) <> t ->
+                          Some ("chk where_vs_sem " ^ classify row (ETop e) ^ " impl=" ^ b01 (obs <> [ "none" ]) ^ " spec=" ^ b01 t)
+                      | _ -> None)
+                  | None -> None)) in
+           (match wchk () with Some c -> c | None ->
+           match direct q row, obs with
+            | DUnm, _ -> "ok"
+            | DNone, [ "none" ] -> (match wchk () with Some c -> c | None -> "ok")
+            | DRow r, "row" :: kvs ->
+                let cells = List.map (fun kv -> match String.index_opt kv '=' with
+                  | Some i -> (bytes_of_hex (String.sub kv 0 i), String.sub kv (i + 1) (String.length kv - i - 1))
+                  | None -> failwith "bad cell") kvs in
+                let ok = List.length cells = List.length r &&
+                  List.for_all (fun (k, o) -> match xlookup r k with Some v -> val_matches o v | None -> false) cells in
+                let star_mix = List.mem IStar q.q_items && List.length q.q_items > 1 in
+                if ok then (match wchk () with Some c -> c | None -> "ok nt")
+                else if star_mix && List.for_all (fun (k, o) -> match xlookup r k with Some v -> val_matches o v | None -> false) cells
+                then "chk columns star_with_items_dropped"
+                else "diff direct model=" ^ String.concat " " (List.map (fun (k, v) -> hex_of_bytes k ^ "=" ^ show_val v) r)
+            | DNone, _ -> "diff direct model=none"
+            | DRow _, _ -> "diff direct model=row")
+       | _ -> "bad line")
+  | _ -> "bad line"
+
+let () = Registry.register "C05" handle05
